@@ -97,6 +97,24 @@ impl RunSpec {
         }
         a
     }
+    /// `argv` with the two paths as they are (they need not be UTF-8).
+    pub fn argv_os(&self, data: &Path, dump: &Path) -> Vec<std::ffi::OsString> {
+        let (pd, pp) = ("\u{1}DATA\u{1}", "\u{1}DUMP\u{1}");
+        self.argv(Path::new(pd), Path::new(pp))
+            .into_iter()
+            .map(|a| {
+                for (mark, real) in [(pd, data), (pp, dump)] {
+                    if let Some(pos) = a.find(mark) {
+                        let mut o = std::ffi::OsString::from(&a[..pos]);
+                        o.push(real.as_os_str());
+                        o.push(&a[pos + mark.len()..]);
+                        return o;
+                    }
+                }
+                std::ffi::OsString::from(a)
+            })
+            .collect()
+    }
     pub fn describe(&self) -> serde_json::Value {
         serde_json::json!({"coin": self.coin, "callback": self.callback, "start": self.start, "end": self.end, "verify": self.verify,
             "threads": self.threads, "verbosity": self.verbosity, "env": self.env, "rlimit_nofile": self.rlimit_nofile, "rlimit_fsize": self.rlimit_fsize})
@@ -246,7 +264,7 @@ pub fn read_dir_files(dir: &Path) -> BTreeMap<String, Vec<u8>> {
 
 /// How the two directories are named on the command line (env entry VERIF_PATH_FORM of the spec; default 0):
 /// 0 absolute; 1 relative to the current directory (= their parent); 2 absolute with a trailing slash; 3 relative with `.` and
-/// `..` components and trailing slashes; 4 through symbolic links; 5 current directory = the data directory (`-d .`, `../dump`); 6-8 current directory = the dump folder, named `""`, `.`, `./`.
+/// `..` components and trailing slashes; 4 through symbolic links; 5 current directory = the data directory (`-d .`, `../dump`); 6-8 current directory = the dump folder, named `""`, `.`, `./`; 9 through links with spaces, quotes and non-ASCII characters in their names; 10 through links whose names are not UTF-8.
 pub fn path_form(spec: &RunSpec, data: &Path, dump: &Path) -> (Option<PathBuf>, PathBuf, PathBuf) {
     let form: u8 = spec.env.iter().find(|(k, _)| k == "VERIF_PATH_FORM").and_then(|(_, v)| v.parse().ok()).unwrap_or(0);
     let parent = data.parent().unwrap_or(Path::new("/")).to_path_buf();
@@ -268,6 +286,22 @@ pub fn path_form(spec: &RunSpec, data: &Path, dump: &Path) -> (Option<PathBuf>, 
         6 => (Some(dump.to_path_buf()), data.to_path_buf(), PathBuf::from("")),
         7 => (Some(dump.to_path_buf()), PathBuf::from(format!("../{}", name(data))), PathBuf::from(".")),
         8 => (Some(dump.to_path_buf()), data.to_path_buf(), PathBuf::from("./")),
+        // through links whose names contain spaces, quotes, a leading dash component and non-ASCII characters (9), and bytes
+        // that are not UTF-8 (10)
+        9 | 10 => {
+            use std::os::unix::ffi::OsStringExt;
+            let (nd, np): (std::ffi::OsString, std::ffi::OsString) = if form == 9 {
+                ("my data 'dir' \u{fc}\u{3b2}\u{1f600};x".into(), "-dump folder \"\u{e9}\"".into())
+            } else {
+                (std::ffi::OsString::from_vec(b"data-\xff\xfe-\xc3".to_vec()), std::ffi::OsString::from_vec(b"dump-\x80\xe2\x28".to_vec()))
+            };
+            let (ld, lp) = (parent.join(nd), parent.join(np));
+            let _ = fs::remove_file(&ld);
+            let _ = fs::remove_file(&lp);
+            let _ = std::os::unix::fs::symlink(data, &ld);
+            let _ = std::os::unix::fs::symlink(dump, &lp);
+            (None, ld, lp)
+        }
         _ => (None, data.to_path_buf(), dump.to_path_buf()),
     }
 }
@@ -275,7 +309,7 @@ pub fn path_form(spec: &RunSpec, data: &Path, dump: &Path) -> (Option<PathBuf>, 
 pub fn run_bin(bin: &Path, data: &Path, dump: &Path, spec: &RunSpec) -> RunResult {
     let mut cmd = Command::new(bin);
     let (cwd, data_arg, dump_arg) = path_form(spec, data, dump);
-    cmd.args(spec.argv(&data_arg, &dump_arg));
+    cmd.args(spec.argv_os(&data_arg, &dump_arg));
     if let Some(c) = cwd {
         cmd.current_dir(c);
     }
